@@ -15,8 +15,9 @@
 //	C13.abort   calls aborted by a panic / runtime.Goexit of the callback, followed by independent calls
 //	C13.repeat  more than 2^16 repetitions of the same cheap calls, alternately on two live slices
 //	C13.wrap32  (thorough only) more than 2^32 repetitions of one call; single calls with more than 2^32 callbacks
+//	C13.deep, C13.guard, C13.local, C13.gap, C13.sleep, C13.twins, C13.kept: see units2_test.go
 //
-// All units except C13.par (process-wide GOMAXPROCS) and C13.wrap32 (minutes per case) also run one case in eight as
+// All units except C13.par (process-wide GOMAXPROCS), C13.deep (hundreds of MB per case) and C13.wrap32 (minutes per case) also run one case in eight as
 // four parallel independent copies (pbt Replicas): Run writes no package-level state.
 package c13
 
@@ -35,8 +36,9 @@ const rule = "case = (element kind, named or unnamed slice type, n, size>=1, off
 	"element i is distinguishable by position wherever the kind allows; all six functions " +
 	"(Chunk, ChunkFunc, Windowed, WindowedFunc, Pairs, PairsFunc) are checked on each case against the " +
 	"definitions (piece count, piece lengths, piece i = s[i*size:...], window/pair i = s[i:i+size]; callbacks checked " +
-	"at the time of the call), input unchanged afterwards; a function is skipped (label skip:*) only when its " +
-	"result would have more than 2^16 pieces (Func variants: 2^17+16 callbacks) of a zero-size type; "
+	"at the time of the call), input unchanged afterwards; a slice-returning function is skipped (label skip:*) only when its " +
+	"result would have more than 2^16 pieces of a zero-size type; a Func variant that would have to make more than 2^17+16 callbacks on a zero-size type is called all the same, its callback number 257 + n mod 97 " +
+	"leaves the call by a panic that the harness recovers (label aborted:*; all callbacks up to there are checked, any other panic is a violation); "
 
 const ntBase = "non-trivial = n mod size >= 2 or size > n (with n >= 1)"
 
@@ -427,7 +429,7 @@ var specNested = pbt.Register(&pbt.Spec[Case]{
 	Property: "C13", Name: "C13.nested", Rule: "exhaustive grid n in 0..14 x size in 1..16 x inner size in 1..5 for element kinds int, non-comparable struct and struct{}: " +
 		"the callbacks of ChunkFunc, WindowedFunc and PairsFunc call all six functions again on the piece they were given (inner size), on the whole input and on an independent second live slice (the two slices are used alternately), every inner and outer " +
 		"result is checked against the definitions; then Chunk, Windowed and Pairs results of the input are kept while the same functions run on a second, different slice " +
-		"and their result containers are overwritten by the caller, and all kept results are checked afterwards (a result must not depend on later calls); finally the caller changes all elements of the " +
+		"and their result containers are overwritten by the caller up to their capacity, and all kept results are checked afterwards (a result must not depend on later calls); finally the caller changes all elements of the " +
 		"input in place and all six functions are checked on it again with both sizes (nothing may be remembered per slice); " + ntBase,
 	Enum: func(shard, shards int, tier string, yield func(Case) bool) {
 		for _, kind := range []string{"", "nc", "z-struct"} {
@@ -459,7 +461,7 @@ var specPar = pbt.Register(&pbt.Spec[Case]{
 	Property: "C13", Name: "C13.par", Rule: "large inputs under different numbers of processors: for every T = 2^k+d, k in 8..19 (thorough 8..22, above 2^20 with uint8 elements), d in -1..1, and for each of " +
 		"GOMAXPROCS = 1, 2, 3, 5, 6, 7 and the machine's default (quick: one of them per case in rotation for k > 17, for d = -1, and for (b) with d = +1), set for the duration of the case: (a) n = T+1, size 2 (T pairs, T windows, T/2+1 chunks) and (b) n = T, size 1 (T chunks, T windows, T-1 pairs), int elements; " +
 		"with one of those processor counts in rotation: (a) with 128-byte, 1040-byte, uint8, [3]uint8, string and zero-size elements (128-byte up to k=16, 1040-byte up to k=13), " +
-		"(c) n = T with window/chunk size T/2 and isqrt(T), (d) exactly T chunks of size 3 and exactly T windows of size 7; thorough also k in 23..25 with uint8 elements: T pairs, T/1024 chunks, 1000 windows; every result is looked at the moment the function returns " +
+		"(c) n = T with window/chunk size T/2 and isqrt(T), (d) exactly T chunks of size 3 and exactly T windows of size 7; thorough also k in 23..25 with uint8 elements: T pairs, T/1024 chunks, 1000 windows; (e) for T = 2^k, k in 12..19 (thorough 12..20), int, uint8 and (k <= 16) 128-byte and zero-size elements, n = T+1 with size 2 or n = T with size 1: another goroutine sets GOMAXPROCS to 2 and 7 in turn all the time while the six calls run; every result is looked at the moment the function returns " +
 		"(last piece first, then 64 pieces spread over the result backwards, then all pieces in order); " + rule + "non-trivial = n >= 200",
 	Enum: func(shard, shards int, tier string, yield func(Case) bool) {
 		maxK := 19
@@ -525,6 +527,26 @@ var specPar = pbt.Register(&pbt.Spec[Case]{
 					continue
 				}
 				if !emit(base, "", T, T/2, next()) || !emit(base, "", T, isqrt(T), next()) || !emit(base, "c", 3*T, 3, next()) || !emit(base, "w", T+6, 7, next()) {
+					return
+				}
+			}
+		}
+		// (e) another goroutine changes GOMAXPROCS (2, 7, 2, ...) all the time while the calls run
+		for k := min(maxK, 20); k >= 12; k-- {
+			T := 1 << k
+			for _, kind := range []string{"", "u8", "wide", "z-struct"} {
+				if (kind == "wide" || kind == "z-struct") && k > 16 {
+					continue
+				}
+				cnt++
+				if shards > 1 && cnt%shards != shard {
+					continue
+				}
+				n, size := T+1, 2
+				if cnt%3 == 0 {
+					n, size = T, 1
+				}
+				if !yield(Case{Kind: kind, N: n, Size: size, Flip: true, Front: cnt % 3, Spare: cnt % 2, Named: cnt%4 < 2}) {
 					return
 				}
 			}
